@@ -2,6 +2,7 @@ package main
 
 import (
 	"fmt"
+	"strings"
 )
 
 func init() { gens["C04"] = genC04 }
@@ -47,6 +48,35 @@ func genC04(tier string, r *rng, emit func(string)) {
 	if thorough {
 		n = 200000
 	}
+	// every element type x every whole-tensor write / copy through a sliced, a stepped and a lazily
+	// transposed view (Memset, Zero, SetAt, Copy and the copies are generated per element type)
+	for _, dt := range dtypeNames {
+		for _, view := range []string{"new:rm:3,4:10;slice:0:_/1.3.1", "new:rm:3,4:10;slice:0:0.3.2/_", "new:cm:3,4:10;slice:0:1.3.1/_", "new:rm:3,4:10;T:0:1,0;slice:0:1.3.1/_", "new:rm:2,3,2:10;slice:0:_/1.3.1/_"} {
+			v, sh := 1, "3,2"
+			switch {
+			case strings.Contains(view, "0.3.2"):
+				sh = "2,4"
+			case strings.Contains(view, "new:cm"):
+				sh = "2,4"
+			case strings.Contains(view, "T:0"):
+				sh = "2,3"
+			case strings.Contains(view, "2,3,2"):
+				sh = "2,2,2"
+			}
+			for _, w := range []string{
+				fmt.Sprintf("memset:%d:1", v), fmt.Sprintf("zero:%d", v),
+				fmt.Sprintf("setat:%d:%s:2", v, fints(make([]int, len(ints(sh))))),
+				fmt.Sprintf("new:rm:%s:100;copy:%d:%d", sh, v, v+1), fmt.Sprintf("new:rm:%s:100;copy:%d:%d", sh, v+1, v),
+				fmt.Sprintf("clone:%d;memset:%d:3", v, v+1), fmt.Sprintf("mat:%d;memset:%d:3", v, v+1),
+				fmt.Sprintf("safeT:%d:_;zero:%d", v, v+1),
+			} {
+				emit(fmt.Sprintf("prog %s %s;%s", dt, view, w))
+			}
+		}
+		emit(fmt.Sprintf("prog %s new:rm:3,4:10;T:0:1,0;memset:0:1", dt))
+		emit(fmt.Sprintf("prog %s new:rm:3,4:10;T:0:1,0;zero:0", dt))
+		emit(fmt.Sprintf("prog %s new:rm:3,4:10;memset:0:1;zero:0", dt))
+	}
 	dts := []string{"f64", "i", "u8", "str", "f32", "c64", "b", "i8"}
 	for i := 0; i < n; i++ {
 		sh := randShape(r, 1, 4, 4)
@@ -84,7 +114,21 @@ func genC04(tier string, r *rng, emit func(string)) {
 		if r.intn(6) == 0 {
 			target = 0
 		}
-		switch r.intn(9) {
+		arith := false
+		switch r.intn(11) {
+		case 9: // in-place arithmetic through the view: tensor-scalar (either side) and unary
+			arith = true
+			op := []string{"add", "sub", "mul", "div", "mod", "pow"}[r.intn(6)]
+			if r.intn(4) == 0 {
+				prog += fmt.Sprintf(";un:%s:%d:unsafe", []string{"neg", "square", "cube", "abs"}[r.intn(4)], target)
+			} else {
+				prog += fmt.Sprintf(";bins:%s:%d:2:%s:unsafe", op, target, []string{"left", "right"}[r.intn(2)])
+			}
+		case 10: // in-place tensor-tensor arithmetic, the view as the overwritten operand
+			arith = true
+			if len(curSh) > 0 {
+				prog += fmt.Sprintf(";new:rm:%s:1;bin:%s:%d:%d:unsafe", fints(curSh), []string{"add", "sub", "mul"}[r.intn(3)], cur, ntens)
+			}
 		case 0:
 			prog += fmt.Sprintf(";memset:%d:1", target)
 		case 1:
@@ -112,6 +156,14 @@ func genC04(tier string, r *rng, emit func(string)) {
 			prog += fmt.Sprintf(";setat:0:%s:5", fints(make([]int, len(sh))))
 		}
 		dt := dts[i%len(dts)]
+		if arith {
+			dt = []string{"f64", "i", "f32", "i32", "i64"}[i%5]
+			if dt != "f64" && dt != "f32" { // Pow is for float types; integer division by the model's Z rules only for positives
+				for _, o := range []string{"pow", "div", "mod"} {
+					prog = strings.Replace(prog, ";bins:"+o+":", ";bins:mul:", 1)
+				}
+			}
+		}
 		emit(fmt.Sprintf("prog %s %s", safeDt(dt, "new:rm:200:0"), prog)[:0] + fmt.Sprintf("prog %s %s", pickDt(dt, prog), prog))
 	}
 }
